@@ -164,9 +164,14 @@ pub fn weights_of(v: &Value) -> (HashMap<String, f64>, Vec<Value>) {
 
 /// an amount placed relative to the broker's current cash balance (boundary probing: the driver cannot know the
 /// balance in advance); falls back to the literal "x"
-fn amount_of(op: &Value, cash: f64, liq: f64, total: f64) -> f64 {
+fn amount_of(op: &Value, cash: f64, liq: f64, total: f64, posvals: &[f64]) -> f64 {
     match op.get("rel").and_then(|r| r.as_str()) {
         None => bf(&op["x"]),
+        // exactly the value of the first position(s) in the order the liquidation will walk them: full sales that use
+        // the request up to the last bit, with positions still to come
+        Some("posval_1") => posvals.first().copied().unwrap_or(cash),
+        Some("posval_2") => if posvals.len() >= 2 { posvals[0] + posvals[1] } else { posvals.first().copied().unwrap_or(cash) },
+        Some("posval_1_half") => posvals.first().map(|v| v / 2.0).unwrap_or(cash),
         // relative to the portfolio's liquidation value / total value (they differ by the selling costs): the band
         // in which a request is coverable gross but not net
         Some("liq_eq") => liq,
@@ -194,7 +199,10 @@ pub fn run(sc: &Value) -> Value {
     let mut results = Vec::new();
     for op in arr(&sc["ops"]) {
         rig.log.borrow_mut().clear();
-        let x_used = if op.get("x").is_some() || op.get("rel").is_some() { amount_of(op, b.get_cash_balance(), b.get_liquidation_value(), b.get_total_value()) } else { 0.0 };
+        let x_used = if op.get("x").is_some() || op.get("rel").is_some() {
+            let posvals: Vec<f64> = b.get_positions().iter().map(|p| b.get_position_value(p).unwrap_or(0.0)).collect();
+            amount_of(op, b.get_cash_balance(), b.get_liquidation_value(), b.get_total_value(), &posvals)
+        } else { 0.0 };
         let r = catch(|| match s(&op["op"]).as_str() {
             "deposit" => cash_event_json(&b.deposit_cash(&x_used)),
             "withdraw" => cash_event_json(&b.withdraw_cash(&x_used)),
